@@ -458,6 +458,9 @@ func genGroupOp(t *rapid.T, c *clusterSpec, kind string, withFault bool) op {
 		if withFault {
 			k := pick(t, "faultTarget", ks)
 			o.Fault = fault{Kind: "code", Code: pick(t, "faultCode", groupCodes[:2]), Topic: k.t, Partition: k.p, Req: -1}
+			if c.OffsetFetchMax >= 2 && chance(t, "groupLevel", 3) {
+				o.Fault = fault{Kind: "group-code", Code: pick(t, "groupCode", []int16{16, 15, 14, 30}), Req: -1}
+			}
 		}
 	case "offsetcommit":
 		if o.Group == "g-none" {
